@@ -16,8 +16,12 @@ import TflModel.Lemmas.Ensembles
   wrap, its compositions with `canonicalize_trust` / `as_tuples` in `LatticeConstraints` (fix ebf18ed),
   the `Linear` monotonicity broadcast, the CDF float default) are idempotent in the strong
   form the theorem needs, and tuple↔list insensitive (`Lemmas/Verify.lean`).
-* T3 `rtl_structure_deterministic`, `random_ensemble_deterministic`: seed-derived structure is a
-  FUNCTION of what the config stores.
+* T3 (Props/C11Seed.lean) `rtl_rebuild_structure`, `rtl_rebuild_outputs`: with an INTEGER `random_seed`
+  the RTL structure is a function of (stored config, input shapes) — independent of the state of the
+  process at the build — so a layer rebuilt from its config has the same structure and, with the original
+  weights, identical outputs; `rtl_seed_none_not_a_function`: false for `random_seed=None` (finding
+  F-C11-i).  `rtl_structure_deterministic`, `random_ensemble_deterministic` below are mere congruences
+  (equal arguments, equal results) and are kept only as such.
 Limits (`_partial`): the Keras composites (`initializers.get ∘ serialize`, nested config lists) are
 hypotheses of T0, exercised on the real objects by the harness; HDF5 / SavedModel / `.keras`
 machinery is runtime, exercised at k ∈ {0,1,5} training steps.
@@ -370,14 +374,14 @@ theorem valSem_idem : (∀ o v, valSem.norm idNorm o v = v) ∧
     ∀ n ∈ modelledNorms, ∀ (o o' : String → Val) (v : Val),
       valSem.norm n o' (valSem.norm n o v) = valSem.norm n o v := by
   refine ⟨fun o v => by simp [valSem, valNorm, idNorm, nCanonMono0, nCanonMono1, nCanonTrust, nCanonUni,
-    nWrapSingle, nLinearMono, nFloatOr, nAsTuples, nWrapCanonTrust, nWrapAsTuples], ?_⟩
+    nWrapSingle, nLinearMono, nFloatOr, nAsTuples, nWrapCanonTrust, nWrapAsTuples, nWrapSingleG], ?_⟩
   intro n hn o o' v
   simp only [modelledNorms, List.mem_cons, List.mem_nil_iff, or_false] at hn
-  rcases hn with rfl | rfl | rfl | rfl | rfl | rfl | rfl | rfl | rfl | rfl | rfl | rfl
+  rcases hn with rfl | rfl | rfl | rfl | rfl | rfl | rfl | rfl | rfl | rfl | rfl | rfl | rfl
   · simp [valSem, valNorm, idNorm, nCanonMono0, nCanonMono1, nCanonTrust, nCanonUni, nWrapSingle, nLinearMono, nFloatOr, nAsTuples,
-      nWrapCanonTrust, nWrapAsTuples]
+      nWrapCanonTrust, nWrapAsTuples, nWrapSingleG]
   · simp [valSem, valNorm, nCanonMono0, nCanonMono1, nCanonTrust, nCanonUni, nWrapSingle, nLinearMono, nFloatOr, nAsTuples,
-      nWrapCanonTrust, nWrapAsTuples]
+      nWrapCanonTrust, nWrapAsTuples, nWrapSingleG]
   · simp only [valSem, valNorm, if_true]
     exact orSelf_canon_idem (canonMonotonicities false) atomsVal (canonMonotonicities_idem false) v
   · have e1 : nCanonMono1 ≠ nCanonMono0 := by decide +kernel
@@ -446,6 +450,18 @@ theorem valSem_idem : (∀ o v, valSem.norm idNorm o v = v) ∧
     have e9 : nWrapAsTuples ≠ nWrapCanonTrust := by decide +kernel
     simp only [valSem, valNorm, e1, e2, e3, e4, e5, e6, e7, e8, e9, if_false, if_true]
     exact wrapAsTuples_idem v
+  · have e1 : nWrapSingleG ≠ nCanonMono0 := by decide +kernel
+    have e2 : nWrapSingleG ≠ nCanonMono1 := by decide +kernel
+    have e3 : nWrapSingleG ≠ nCanonTrust := by decide +kernel
+    have e4 : nWrapSingleG ≠ nCanonUni := by decide +kernel
+    have e5 : nWrapSingleG ≠ nWrapSingle := by decide +kernel
+    have e6 : nWrapSingleG ≠ nLinearMono := by decide +kernel
+    have e7 : nWrapSingleG ≠ nFloatOr := by decide +kernel
+    have e8 : nWrapSingleG ≠ nAsTuples := by decide +kernel
+    have e9 : nWrapSingleG ≠ nWrapCanonTrust := by decide +kernel
+    have e10 : nWrapSingleG ≠ nWrapAsTuples := by decide +kernel
+    simp only [valSem, valNorm, e1, e2, e3, e4, e5, e6, e7, e8, e9, e10, if_false, if_true]
+    exact wrapSingle_idem v
 
 /-- **C11 (T0 + T1 + T2 together).** For every class of the regenerated table other than the four
 premade models, every semantics that agrees with the Lean models on the modelled normalisers and
@@ -524,18 +540,21 @@ theorem F_C11_d_counter_witness (S : Sem V) (row : ClassRow) (hrow : row ∈ row
 
 /-! ## T3: seed-derived structure is a function of the stored config -/
 
-/-- **C11-T3 (RTL).** The RTL structure is a function of the input shapes and of what
-`get_config` stores (`num_lattices`, `lattice_rank`, `avoid_intragroup_interaction`, and
-`random_seed` through the two shuffles it determines): two layers with equal configs build the
-same structure — so with equal weights they compute the same function. -/
+/-- (A CONGRUENCE — true of any function; the statement about a REBUILD, with the seed → shuffles map
+made explicit and `random_seed=None` excluded by a counter-witness, is `rtl_rebuild_structure` /
+`rtl_rebuild_outputs` / `rtl_seed_none_not_a_function` in Props/C11Seed.lean.)
+`rtlStructureOf` takes the input shapes, `num_lattices`, `lattice_rank`,
+`avoid_intragroup_interaction` and the two shuffles: equal arguments give equal structures. -/
 theorem rtl_structure_deterministic (inc unc inc' unc' : List Nat) (L r L' r' : Nat) (av av' : Bool)
     (p1 p2 p1' p2' : List Nat) (h1 : inc = inc') (h2 : unc = unc') (h3 : L = L') (h4 : r = r')
     (h5 : av = av') (h6 : p1 = p1') (h7 : p2 = p2') :
     rtlStructureOf inc unc L r av p1 p2 = rtlStructureOf inc' unc' L' r' av' p1' p2' := by
   subst h1 h2 h3 h4 h5 h6 h7; rfl
 
-/-- **C11-T3 (random ensembles).** `set_random_lattice_ensemble` is a function of
-(`num_features`, `num_lattices`, `lattice_rank`) and of the draws determined by `random_seed` -/
+/-- (A CONGRUENCE as well.)  `set_random_lattice_ensemble` is a function of (`num_features`,
+`num_lattices`, `lattice_rank`) and of its draws.  For the ROUND TRIP of a premade model nothing is
+drawn again: the setter writes the ensemble into `model_config.lattices`, a key of the config
+(`table_rows_ok`); see Props/C11Seed.lean. -/
 theorem random_ensemble_deterministic (n L r n' L' r' : Nat) (f f' : List Nat) (g g' : List (List Nat))
     (h1 : n = n') (h2 : L = L') (h3 : r = r') (h4 : f = f') (h5 : g = g') :
     Tfl.Ensembles.randomEnsemble n L r f g = Tfl.Ensembles.randomEnsemble n' L' r' f' g' := by
